@@ -250,6 +250,97 @@ def check_distinct_state(ck, prop, ci):
     return n
 
 
+_KNOWN_ATTRS = None
+
+
+def known_attrs():
+    """{class name: attributes the class had on the pinned tree} (sa/known_attrs.json, frozen like known_funcs.json)"""
+    global _KNOWN_ATTRS
+    if _KNOWN_ATTRS is None:
+        import json
+        import os
+        try:
+            _KNOWN_ATTRS = {k: set(v) for k, v in json.load(open(os.path.join(os.path.dirname(os.path.abspath(__file__)), "known_attrs.json"))).items()}
+        except OSError:
+            _KNOWN_ATTRS = {}
+    return _KNOWN_ATTRS
+
+
+def check_derived_state(ck, prop, ci):
+    """G5: an attribute that did not exist on the pinned tree and whose stored value is computed from *other* attributes of the same
+    object is remembered, derived state (a cache, a precomputed deadline, a cursor).  Whatever changes one of the attributes it was
+    computed from must bring it up to date on the same path - otherwise its readers see a value that belongs to an earlier state.  The
+    rules of the property know nothing about such an attribute, so this coherence condition is what is checked about it."""
+    from .rules import who_writes, state_writes
+    from .flow import leaves
+    repo = ck.repo
+    ka = known_attrs()
+    if ci.name not in ka:
+        return 0
+    known = set()
+    for c in repo.mro(ci):
+        known |= ka.get(c.name, set())
+    stores = {}
+    for m in ci.methods.values():
+        try:
+            fl = flow_of(m)
+        except Exception:
+            continue
+        for node, kind, path, tgt in state_writes(fl):
+            if kind == "assign" and path.startswith("self.") and path.count(".") == 1 and path[5:] not in known and getattr(node.stmt, "value", None) is not None:
+                stores.setdefault(path[5:], []).append((m, fl, node))
+        # restore functions write through `out_obj`
+        for node in fl.cfg.nodes:
+            if node.kind == "stmt" and isinstance(node.stmt, ast.Assign):
+                for t in node.stmt.targets:
+                    if isinstance(t, ast.Attribute) and isinstance(t.value, ast.Name) and t.value.id == "out_obj" and t.attr not in known:
+                        stores.setdefault(t.attr, []).append((m, fl, node))
+    n = 0
+    for X, sts in sorted(stores.items()):
+        deps = set()
+        for m, fl, node in sts:
+            for lf_ in leaves(fl.expand(node.stmt.value, node), calls=False):
+                parts = lf_.split(".")
+                if len(parts) >= 2 and parts[0] in ("self", "out_obj") and parts[1] != X:
+                    deps.add(parts[1])
+        deps = {d for d in deps if d in known and not (d in ci.methods or any(d in c.methods for c in repo.mro(ci)) and not any(d in ka.get(c.name, ()) and d not in c.methods for c in repo.mro(ci)))}
+        # a counter that only ever moves by a constant step (the period counter) is not a source to be kept in step with: values derived
+        # from it are absolute positions (deadlines, offsets) that stay valid while it advances
+        def is_counter(d):
+            ws = [(f, k, p_, t) for f, k, p_, t in who_writes(repo, d) if p_ in (f"self.{d}", f"out_obj.{d}") and f.name not in ("__init__", "_from_dict", "_from_dict_helper")]
+            return bool(ws) and all(k == "aug" for f, k, p_, t in ws)
+        deps = {d for d in deps if not is_counter(d)}
+        if not deps:
+            continue
+        readers = [m for m in ci.methods.values() for x in walk_local(m.node)
+                   if isinstance(x, ast.Attribute) and isinstance(x.ctx, ast.Load) and x.attr == X and isinstance(x.value, ast.Name) and x.value.id == "self"]
+        if not readers:
+            continue
+        family = {c.name for c in repo.mro(ci)} | {c.name for c in repo.subclasses(ci.name)}
+        for d in sorted(deps):
+            for f, kind, path, t in who_writes(repo, d):
+                if f.cls is None or f.cls.name not in family or "/tests/" in f.module or path not in (f"self.{d}", f"out_obj.{d}"):
+                    continue
+                if f.name == "__init__" and any(m is f for m, _, _ in sts):
+                    continue                # constructed together
+                n += 1
+                try:
+                    fl = flow_of(f)
+                except Exception:
+                    continue
+                root = path.split(".")[0]
+                wnodes = [nd for nd, k2, p2, t2 in state_writes(fl, roots=(root,)) if p2 == path and (t2 is t or k2 == kind)]
+                xnodes = {nd for nd, k2, p2, t2 in state_writes(fl, roots=(root,)) if p2 == f"{root}.{X}"}
+                stale = [w for w in wnodes if fl.cfg.exit in fl.cfg.reach(w, avoid=xnodes | {fl.cfg.raise_exit}) and w not in xnodes]
+                if stale:
+                    ck.violation(f"{prop}.G5", f, stale[0].stmt, f"{f.qual} changes `{d}`, which `{ci.name}.{X}` (new, derived state: set in "
+                                 f"{', '.join(sorted({m.qual for m, _, _ in sts}))} from {sorted(deps)}) was computed from, and does not bring `{X}` up to date on that path: "
+                                 f"{readers[0].qual} then reads a value that belongs to the earlier state", sink=f"{ci.name}.{X}:stale-after:{f.qual}:{d}")
+                else:
+                    ck.holds(f"{prop}.G5", f, t if isinstance(t, ast.AST) else f.qual, f"`{X}` is refreshed after `{d}` changes")
+    return n
+
+
 def run(ck, prop, analysed):
     """analysed: {qualified name: module} of the functions the property's rules built flow graphs for"""
     repo = ck.repo
@@ -265,9 +356,11 @@ def run(ck, prop, analysed):
             if f.cls is not None and "/tests/" not in f.cls.module:
                 classes[(f.cls.name, f.cls.module)] = f.cls
     m = 0
-    k4 = 0
+    k4 = k5 = 0
     for key in sorted(classes):
         m += check_class(ck, prop, classes[key])
         k4 += check_distinct_state(ck, prop, classes[key])
+        k5 += check_derived_state(ck, prop, classes[key])
     ck.count("attribute stores of fresh allocations under the distinct-state rule", k4)
+    ck.count("writers of the sources of new derived attributes under the coherence rule", k5)
     ck.count("attribute reads under the definite-initialisation rule", m)
